@@ -45,6 +45,21 @@ func genOrCase(t *rapid.T) interface{} {
 	for i := 0; i < n; i++ {
 		c.Vals = append(c.Vals, OrVal{Power: pg.Draw(t, "power"), Bonded: i == 0 || rapid.IntRange(0, 9).Draw(t, "bonded") < 8})
 	}
+	if rapid.IntRange(0, 5).Draw(t, "thirds") == 0 {
+		// stake that splits into exact thirds: 3, 6 or 9 equal validators, or 2,1,1,1,1
+		c.Vals = nil
+		if rapid.IntRange(0, 3).Draw(t, "shape") == 0 {
+			for _, p := range []int64{2, 1, 1, 1, 1} {
+				c.Vals = append(c.Vals, OrVal{Power: p * 7, Bonded: true})
+			}
+		} else {
+			p := rapid.SampledFrom([]int64{1, 10, 33, 100}).Draw(t, "eqpower")
+			for i, k := 0, rapid.SampledFrom([]int{3, 6, 9}).Draw(t, "eqn"); i < k; i++ {
+				c.Vals = append(c.Vals, OrVal{Power: p, Bonded: true})
+			}
+		}
+		n = len(c.Vals)
+	}
 	nops := rapid.IntRange(8, 90).Draw(t, "nops")
 	for i := 0; i < nops; i++ {
 		k := rapid.IntRange(0, 99).Draw(t, "k")
@@ -65,6 +80,8 @@ func genOrCase(t *rapid.T) interface{} {
 			op.Kind = "rebond"
 		case k < 71:
 			op.Kind = "remove" // the validator leaves the staking store altogether (finished unbonding, no delegations)
+		case k < 77:
+			op.Kind = "hsplit" // the validators up to the one that completes two thirds of the stake report one holders list, the rest another
 		default:
 			op.Kind = "block"
 		}
@@ -311,7 +328,23 @@ func runOrCaseMode(ci interface{}, rec *pbt.Rec, blockers bool) *pbt.Failure {
 		return nil
 	}
 
+	var ops []OrOp
 	for _, op := range c.Ops {
+		if op.Kind != "hsplit" {
+			ops = append(ops, op)
+			continue
+		}
+		tot, acc := big.NewInt(h.Staking.TotalPower()), new(big.Int)
+		for i := 0; i < nvals; i++ {
+			variant := 1
+			if new(big.Int).Mul(acc, big.NewInt(3)).Cmp(new(big.Int).Mul(tot, big.NewInt(2))) < 0 {
+				variant = 0
+			}
+			acc.Add(acc, big.NewInt(h.Staking.GetLastValidatorPower(h.Ctx(), sim.ValAddr(i))))
+			ops = append(ops, OrOp{Kind: "holders", Val: i, Variant: variant})
+		}
+	}
+	for _, op := range ops {
 		v := op.Val % nvals
 		switch op.Kind {
 		case "block":
